@@ -354,6 +354,24 @@ type gateMemStore struct {
 	updAtomic bool
 	mu        sync.Mutex
 	keys      map[string]bool
+	// sticky: while non-nil, every store operation of a request that is NOT a gated thread (no thread id in its context: the
+	// browser-level drivers) fails with this error (setSticky). Gated threads keep their per-operation fault decisions.
+	sticky error
+}
+
+func (s *gateMemStore) setSticky(err error) {
+	s.mu.Lock()
+	s.sticky = err
+	s.mu.Unlock()
+}
+
+func (s *gateMemStore) stickyFor(ctx context.Context) error {
+	if tidOf(ctx) != 0 {
+		return nil
+	}
+	s.mu.Lock()
+	defer s.mu.Unlock()
+	return s.sticky
 }
 
 func (s *gateMemStore) note(key string) {
@@ -363,11 +381,17 @@ func (s *gateMemStore) note(key string) {
 }
 
 func (s *gateMemStore) Write(ctx context.Context, key string, value *session.EncryptedData, expiration time.Duration) error {
+	if err := s.stickyFor(ctx); err != nil {
+		return err
+	}
 	s.note(key)
 	return s.inner.Write(ctx, key, value, expiration)
 }
 
 func (s *gateMemStore) Read(ctx context.Context, key string) (*session.EncryptedData, error) {
+	if err := s.stickyFor(ctx); err != nil {
+		return nil, err
+	}
 	d, th := s.ctl.arrive(ctx, "get")
 	k := keyID(key)
 	if err := ctx.Err(); err != nil {
@@ -391,6 +415,9 @@ func (s *gateMemStore) Read(ctx context.Context, key string) (*session.Encrypted
 }
 
 func (s *gateMemStore) Delete(ctx context.Context, keys ...string) error {
+	if err := s.stickyFor(ctx); err != nil {
+		return err
+	}
 	d, th := s.ctl.arrive(ctx, "del")
 	var k int64
 	if len(keys) > 0 {
@@ -420,6 +447,9 @@ func (s *gateMemStore) Delete(ctx context.Context, keys ...string) error {
 }
 
 func (s *gateMemStore) Update(ctx context.Context, key string, value *session.EncryptedData) error {
+	if err := s.stickyFor(ctx); err != nil {
+		return err
+	}
 	d, th := s.ctl.arrive(ctx, "update")
 	k := keyID(key)
 	first := int64(1) // non-atomic update starts with a read
